@@ -412,6 +412,8 @@ where
                 }
             }
         }
+        // a cached copy of the old object must not be served by a later `get`
+        self.cache.clear();
         let rc = Shared::new(obj);
         
         Ok(RcRef::new(r, rc))
